@@ -19,6 +19,9 @@ TABLES = {
     "rising_interval_zeta": "tuple[int,int,real]",
     "recession_interval": "tuple[int,real]",
     "recession_interval_zeta": "tuple[int,int,real]",
+    "rainfall_intensity_staging": "tuple[int,int]",  # (epoch, value) as written by generate_timestamped_rows (values by identity)
+    "evapotranspiration_staging": "tuple[int,int]",
+    "water_level_staging": "tuple[int,int]",
     "grid_time_label": "tuple[int,int]",             # ghost table: the (data_interval, epoch) updates of grid_time
     "water_level": "tuple[int,real]",
 }
@@ -275,4 +278,36 @@ def _upd_grid_time_label(p):
 
 @sql("""INSERT INTO water_level (epoch, zeta_mm) VALUES (?, ?)""", kind="insert", table="water_level", row=lambda p: (p[0], p[1]))
 def _ins_water_level(p):
+    pass
+
+
+# --------------------------------------------------------------------------- load_data
+
+@sql("""PRAGMA foreign_keys = 1""", rows="tuple[int]")
+def _pragma_fk(p, rows):
+    """Switches foreign-key enforcement on for the connection; returns nothing of interest."""
+    pass
+
+
+@sql("""SELECT name FROM sqlite_master WHERE type='table'""", rows="tuple[int]")
+def _q_tables(p, rows):
+    """One row per existing table (names modelled by integer identities)."""
+    pass
+
+
+@sql("""INSERT INTO rainfall_intensity_staging (epoch, rainfall_intensity_mm_h) VALUES (?, ?)""", kind="insert",
+     table="rainfall_intensity_staging", row=lambda p: (p[0], p[1]))
+def _ins_rain_staging(p):
+    pass
+
+
+@sql("""INSERT INTO evapotranspiration_staging (epoch, evapotranspiration_mm_h) VALUES (?, ?)""", kind="insert",
+     table="evapotranspiration_staging", row=lambda p: (p[0], p[1]))
+def _ins_et_staging(p):
+    pass
+
+
+@sql("""INSERT INTO water_level_staging (epoch, zeta_mm) VALUES (?, ?)""", kind="insert",
+     table="water_level_staging", row=lambda p: (p[0], p[1]))
+def _ins_wl_staging(p):
     pass
